@@ -127,7 +127,17 @@ func benignRewrite(dir, kind string) error {
 		}
 		for i, f := range p.Syntax {
 			before := sites
-			astutil.Apply(f, nil, func(c *astutil.Cursor) bool {
+			var consts []string
+			funcDepth = 0
+			astutil.Apply(f, func(c *astutil.Cursor) bool {
+				if fd, ok := c.Node().(*ast.FuncDecl); ok && fd.Body != nil {
+					funcDepth++
+				}
+				return true
+			}, func(c *astutil.Cursor) bool {
+				if fd, ok := c.Node().(*ast.FuncDecl); ok && fd.Body != nil {
+					defer func() { funcDepth-- }()
+				}
 				switch x := c.Node().(type) {
 				case *ast.IncDecStmt:
 					if kind == "incdec" {
@@ -166,7 +176,119 @@ func benignRewrite(dir, kind string) error {
 						c.Replace(&ast.DeclStmt{Decl: &ast.GenDecl{Tok: token.VAR, Specs: []ast.Spec{&ast.ValueSpec{Names: []*ast.Ident{id}, Values: []ast.Expr{x.Rhs[0]}}}}})
 						sites++
 					}
+				case *ast.BasicLit:
+					// constlit: an integer literal inside a function body becomes a named package-level constant
+					if kind != "constlit" || x.Kind != token.INT || !inFunc(c) {
+						return true
+					}
+					if _, isCase := c.Parent().(*ast.CaseClause); isCase {
+						return true // duplicate-case detection is by value either way; keep the literal readable
+					}
+					if tv, ok := p.TypesInfo.Types[x]; !ok || tv.Value == nil {
+						return true
+					}
+					name := fmt.Sprintf("zqK%d_%d", i, len(consts))
+					consts = append(consts, name+" = "+x.Value)
+					c.Replace(&ast.Ident{Name: name, NamePos: x.Pos()})
+					sites++
+				case *ast.ForStmt:
+					// rangeloop: for i := 0; i < len(X); i++ { ... }  ->  for i := range X { ... }
+					// when the body neither assigns i nor X (X a plain variable) and i is not used after the loop
+					if kind != "rangeloop" {
+						return true
+					}
+					init, ok1 := x.Init.(*ast.AssignStmt)
+					cond, ok2 := x.Cond.(*ast.BinaryExpr)
+					post, ok3 := x.Post.(*ast.IncDecStmt)
+					if !ok1 || !ok2 || !ok3 || init.Tok != token.DEFINE || len(init.Lhs) != 1 || cond.Op != token.LSS || post.Tok != token.INC {
+						return true
+					}
+					iv, ok := init.Lhs[0].(*ast.Ident)
+					if lit, isL := init.Rhs[0].(*ast.BasicLit); !ok || !isL || lit.Value != "0" {
+						return true
+					}
+					ci, okc := cond.X.(*ast.Ident)
+					pi, okp := post.X.(*ast.Ident)
+					call, okl := cond.Y.(*ast.CallExpr)
+					if !okc || !okp || !okl || ci.Name != iv.Name || pi.Name != iv.Name || len(call.Args) != 1 {
+						return true
+					}
+					if fn, isI := call.Fun.(*ast.Ident); !isI || fn.Name != "len" {
+						return true
+					}
+					xv, okx := call.Args[0].(*ast.Ident)
+					if !okx {
+						return true
+					}
+					if _, isStr := p.TypesInfo.TypeOf(xv).Underlying().(*types.Basic); isStr {
+						return true // ranging over a string walks runes, not bytes
+					}
+					iobj, xobj := p.TypesInfo.Defs[iv], p.TypesInfo.Uses[xv]
+					assigned := false
+					ast.Inspect(x.Body, func(n ast.Node) bool {
+						switch y := n.(type) {
+						case *ast.AssignStmt:
+							for _, l := range y.Lhs {
+								if id, isI := l.(*ast.Ident); isI && (p.TypesInfo.Uses[id] == iobj || p.TypesInfo.Uses[id] == xobj) {
+									assigned = true
+								}
+							}
+						case *ast.IncDecStmt:
+							if id, isI := y.X.(*ast.Ident); isI && p.TypesInfo.Uses[id] == iobj {
+								assigned = true
+							}
+						case *ast.UnaryExpr:
+							if y.Op == token.AND {
+								assigned = true
+							}
+						}
+						return true
+					})
+					if assigned {
+						return true
+					}
+					c.Replace(&ast.RangeStmt{For: x.For, Key: iv, Tok: token.DEFINE, X: xv, Body: x.Body})
+					sites++
+				case *ast.FuncDecl:
+					if kind != "elsewrap" || x.Body == nil {
+						return true
+					}
+					// from the last statement backwards: `if c { ...; return }` followed by more statements
+					// becomes `if c { ...; return } else { the rest }`
+					list := x.Body.List
+					for k := len(list) - 2; k >= 0; k-- {
+						ifs, ok := list[k].(*ast.IfStmt)
+						if !ok || ifs.Else != nil || len(ifs.Body.List) == 0 {
+							continue
+						}
+						if _, isRet := ifs.Body.List[len(ifs.Body.List)-1].(*ast.ReturnStmt); !isRet {
+							continue
+						}
+						hasLabel := false
+						for _, st := range list[k+1:] {
+							if _, isL := st.(*ast.LabeledStmt); isL {
+								hasLabel = true
+							}
+						}
+						if hasLabel {
+							continue
+						}
+						ifs.Else = &ast.BlockStmt{List: append([]ast.Stmt(nil), list[k+1:]...)}
+						list = list[:k+1]
+						sites++
+					}
+					x.Body.List = list
 				case *ast.IfStmt:
+					if kind == "swapif" {
+						blk, ok := x.Else.(*ast.BlockStmt)
+						if !ok || x.Init != nil {
+							return true
+						}
+						x.Cond = &ast.UnaryExpr{Op: token.NOT, X: &ast.ParenExpr{X: x.Cond}}
+						x.Body, x.Else = blk, x.Body
+						sites++
+						return true
+					}
 					if kind != "elsehoist" || x.Init != nil || x.Else == nil || len(x.Body.List) == 0 {
 						return true
 					}
@@ -213,6 +335,9 @@ func benignRewrite(dir, kind string) error {
 			if err := format.Node(&buf, p.Fset, f); err != nil {
 				return err
 			}
+			if len(consts) > 0 {
+				buf.WriteString("\nconst (\n\t" + strings.Join(consts, "\n\t") + "\n)\n")
+			}
 			if err := os.WriteFile(p.CompiledGoFiles[i], buf.Bytes(), 0o644); err != nil {
 				return err
 			}
@@ -222,3 +347,14 @@ func benignRewrite(dir, kind string) error {
 	fmt.Printf("%s: %d sites in %d files\n", kind, sites, files)
 	return nil
 }
+
+// inFunc: is the cursor's node inside a function body? (approximated: not directly under a declaration spec)
+func inFunc(c *astutil.Cursor) bool {
+	switch c.Parent().(type) {
+	case *ast.ValueSpec, *ast.ArrayType, *ast.Field, *ast.KeyValueExpr, *ast.CompositeLit:
+		return false
+	}
+	return funcDepth > 0
+}
+
+var funcDepth int
